@@ -158,15 +158,19 @@ func c01Run(c *fw.Ctx) {
 	lineAlpha := []byte{'a', '0', '-', '+', ':', '$', '*', ' ', 0x00, 0xff}
 	bulkAlpha := []byte{'a', '\r', '\n', 0x00, '$', '*', '+', ':', '-', 0xff}
 	// (i) line types
+	maxLine := 3
+	if c.Thorough() {
+		maxLine = 5
+	}
 	for _, k := range []resp.Kind{resp.Status, resp.Error, resp.Integer} {
-		eachString(lineAlpha, 3, func(b []byte) {
+		eachString(lineAlpha, maxLine, func(b []byte) {
 			c01RunValue(c, resp.Value{Kind: k, Data: cp(b)}, "line")
 		})
 	}
 	// (ii) bulk payloads
 	maxBulk := 4
 	if c.Thorough() {
-		maxBulk = 5
+		maxBulk = 6
 	}
 	eachString(bulkAlpha, maxBulk, func(b []byte) {
 		c01RunValue(c, resp.Value{Kind: resp.Bulk, Data: cp(b)}, "bulk")
@@ -421,6 +425,12 @@ func c01Ctors(c *fw.Ctx, lineAlpha, bulkAlpha []byte) {
 	c01RunCtor(c, c01Case{Kind: "ctor", Ctor: "int", Int: math.MinInt64})
 	// floats: sign × every finite exponent (0..2046) × mantissa patterns
 	mants := []uint64{0, 1, (1 << 52) - 1, 0x5555555555555, 0xAAAAAAAAAAAAA, 1 << 51, 0x8000000000001, 0x123456789ABCD}
+	if c.Thorough() {
+		// every single-bit and every "all ones up to bit k" mantissa
+		for k := uint(0); k < 52; k++ {
+			mants = append(mants, 1<<k, (1<<(k+1))-1, ((1<<52)-1)^(1<<k))
+		}
+	}
 	for sign := uint64(0); sign < 2; sign++ {
 		for exp := uint64(0); exp <= 2046; exp++ {
 			for _, m := range mants {
@@ -454,7 +464,7 @@ func init() {
 	fw.Register(&fw.Prop{
 		ID:    "C01",
 		Level: "exploration",
-		Rule:  "bounded-exhaustive value trees: line payloads len<=3 over {a,0,-,+,:,$,*,SP,NUL,0xff}; bulk payloads len<=4 (thorough 5) over {a,CR,LF,NUL,$,*,+,:,-,0xff} + null; all 256 byte values in 4 shapes; bulk length sweep 0..65538 (quick: every length <=4096 and 2^k±2); arrays arity<=3 depth<=2 over 8 leaves ∪ 73 depth-1 arrays, depth 3 arity<=2; constructors over the same strings, ints -70000..70000 ∪ ±10^k±1 ∪ ±2^k±1 ∪ min/max, floats sign × all 2047 finite exponents × 8 mantissa patterns. Every case is distinct by construction and non-trivial (each exercises serialize+parse+reserialize against an independent codec).",
+		Rule:  "bounded-exhaustive value trees: line payloads len<=3 (thorough 5) over {a,0,-,+,:,$,*,SP,NUL,0xff}; bulk payloads len<=4 (thorough 6) over {a,CR,LF,NUL,$,*,+,:,-,0xff} + null; all 256 byte values in 4 shapes; bulk length sweep 0..65538 (quick: every length <=4096 and 2^k±2); arrays arity<=3 depth<=2 over 8 leaves ∪ 73 depth-1 arrays, depth 3 arity<=2; constructors over the same strings, ints -70000..70000 ∪ ±10^k±1 ∪ ±2^k±1 ∪ min/max, floats sign × all 2047 finite exponents × 8 mantissa patterns (thorough: 164, every single-bit, prefix-ones and single-zero mantissa). Every case is distinct by construction and non-trivial (each exercises serialize+parse+reserialize against an independent codec).",
 		Assumptions: []string{
 			"the independent strict RESP2 codec in /verif/resp is the reference",
 			"null arrays are outside the property's value list and not generated",
